@@ -216,7 +216,7 @@ func argFnID(fn getoptions.ArgCompletionsFn) int {
 func tSpec(o *getoptions.VerifOption, sfnIgnored int) *T {
 	sfn := valueFnID(o)
 	return Ctor("mkSpec",
-		Str(o.Name), Ctor(kindNames[o.Kind]), Nat(o.MinArgs), Nat(o.MaxArgs),
+		Str(o.Name), Ctor(kindNames[o.Kind]), Nat(o.MinArgs), Nat(capMax(o.MaxArgs)),
 		Strs(o.ValidValues), Str(o.ValidValuesQ), Bool(o.IsRequired), Str(o.IsRequiredErr),
 		Bool(o.BoolDefault), Strs(o.Aliases), Str(o.EnvVar), Str(o.DefaultStr), Str(o.Description),
 		Str(o.HelpArgName), Strs(o.SuggestedValues), tOptNat(sfn))
@@ -268,4 +268,27 @@ func tFloatTable(tab map[string]*float64, order []string) *T {
 		}
 	}
 	return List(items...)
+}
+
+// HugeMax stands, in the definition handed to the model, for the "no upper limit" idiom
+// (math.MaxInt) the real declaration gets; no generated command line has that many tokens.
+const HugeMax = 20000
+
+// sampleText - the Coq text of case i of a vm_compute sample; cases that Coq cannot read in
+// reasonable time (very long value lists, unary numerals in the thousands) are replaced by the
+// first case, the extracted driver evaluates them all
+func sampleText(terms []*T, i int) string {
+	txt := terms[i].CoqString()
+	if i > 0 && (len(txt) > 150000 || strings.Contains(txt, fmt.Sprintf(" %d%%nat", HugeMax))) {
+		return terms[0].CoqString()
+	}
+	return txt
+}
+
+// capMax - the model's bound for a dumped MaxArgs (see HugeMax)
+func capMax(m int) int {
+	if m > HugeMax {
+		return HugeMax
+	}
+	return m
 }
